@@ -36,6 +36,7 @@ func fatal(err error) {
 var runners = map[string]func(Config){
 	"C01": runC01,
 	"C02": runC02,
+	"C08": runC08,
 	"C03": runC03,
 	"C04": runC04,
 	"C05": runC05,
@@ -65,7 +66,12 @@ func main() {
 	flag.StringVar(&cfg.Out, "out", "", "report JSON")
 	flag.StringVar(&cfg.Replay, "replay", "", "replay file")
 	flag.StringVar(&cfg.Work, "work", "", "scratch directory (created and removed by the caller)")
+	child := flag.Bool("child", false, "child-process mode (C08)")
 	flag.Parse()
+	if *child {
+		childMain(flag.Args())
+		return
+	}
 	log.SetOutput(io.Discard) // net/http chatter about deliberately broken scripted responses
 	// the library prints warnings ("skipping … unsupported node type") to os.Stderr
 	if null, err := os.OpenFile(os.DevNull, os.O_WRONLY, 0); err == nil && os.Getenv("VERIF_STDERR") == "" {
